@@ -1,5 +1,34 @@
 import Gaftools.Props.TieA6
 import Gaftools.Props.TieA2
+import Gaftools.Props.TieA24
 #print axioms Gaftools.TieA.processAlignment_gen
 #print axioms Gaftools.TieA.sortNode_gen
 #print axioms Gaftools.TieA.loopStep_gen
+#print axioms Gaftools.TieA.SortPass.reSplitAux_tokens
+#print axioms Gaftools.TieA.SortPass.tokens_gen
+#print axioms Gaftools.TieA.SortPass.orient_enc
+#print axioms Gaftools.TieA.SortPass.contains_orient
+#print axioms Gaftools.TieA.SortPass.for1_orient
+#print axioms Gaftools.TieA.SortPass.for1_name
+#print axioms Gaftools.TieA.SortPass.loop_cons
+#print axioms Gaftools.TieA.SortPass.for1_fold
+#print axioms Gaftools.TieA.SortPass.count_fwd
+#print axioms Gaftools.TieA.SortPass.count_rev
+#print axioms Gaftools.TieA.SortPass.pyIdx_last
+#print axioms Gaftools.TieA.SortPass.toInt_digits
+#print axioms Gaftools.TieA.SortPass.processAlignment_ok
+#print axioms Gaftools.TieA.SortPass.processAlignment_err
+#print axioms Gaftools.TieA.SortPass.steps_getLast
+#print axioms Gaftools.TieA.SortPass.processAlignment_gen
+#print axioms Gaftools.TieA.SortPass.alnOfLine_gen
+#print axioms Gaftools.TieA.SortPass.while_step
+#print axioms Gaftools.TieA.SortPass.while_eof
+#print axioms Gaftools.TieA.SortPass.while_gen
+#print axioms Gaftools.TieA.SortPass.sort_gen
+#print axioms Gaftools.TieA.SortPass.firstPass_gen
+#print axioms Gaftools.TieA.SortPass.mapM_records
+#print axioms Gaftools.TieA.SortPass.firstPass_model
+#print axioms Gaftools.TieA.SortPass.sortLines_gen
+#print axioms Gaftools.TieA.SortPass.name_not_orient
+#print axioms Gaftools.TieA.SortPass.last_pairs
+#print axioms Gaftools.TieA.SortPass.anchored_of_steps
